@@ -315,15 +315,19 @@ void h_assert(void)
 
 static Array g_arr;
 static DynArray g_dyn;
-/* argument vector: the container argument is given by a STATIC INITIALISER through the WIDEST union member (function_val: two
- * pointers; its first 8 bytes are the bytes of array_val / dyn_array_val, the rest is zero - the same object representation
- * as `.as.dyn_array_val = &g_dyn` on a zeroed Value).  Any other way of storing the pointer (run-time member write, initialiser
- * through the narrow member) leaves a byte_update term in CBMC's symbolic execution, the container pointer is then not a
- * constant and every element-kind arm (strings, structs) of the builtin is walked (measured: > 300 s instead of seconds). */
+/* argument vector.  The Values are built the way the interpreter's own constructors build them (create_int / create_float /
+ * create_bool of src/env.c, create_dyn_array of eval.c; for VAL_ARRAY the same shape by hand: a LOCAL Value, type, flags, ONE
+ * union member, returned by value).  Measured: a static initialiser or a member write into a zero-initialised Value stores
+ * the container pointer as byte_update(<widest member zero>, 0, ptr) in CBMC's symbolic execution; the pointer is then not a
+ * constant, the element kind read through it is symbolic and every element-kind arm (strings, structs) of the builtin is
+ * walked (> 300 s instead of seconds). */
+static Value g_argv[3];
+static Value mk_array_value(Array *a)
+{ Value v; v.type = VAL_ARRAY; v.is_return = false; v.is_break = false; v.is_continue = false; v.as.array_val = a; return v; }
 #if VERIF_AK == AK_ARRAY
-static Value g_argv[3] = { { .type = VAL_ARRAY, .as = { .function_val = { .function_name = (char *)&g_arr, .signature = 0 } } }, { .type = VAL_INT }, { .type = VAL_INT } };
+#define SET_CONTAINER_ARG() (g_argv[0] = mk_array_value(&g_arr))
 #else
-static Value g_argv[3] = { { .type = VAL_DYN_ARRAY, .as = { .function_val = { .function_name = (char *)&g_dyn, .signature = 0 } } }, { .type = VAL_INT }, { .type = VAL_INT } };
+#define SET_CONTAINER_ARG() (g_argv[0] = create_dyn_array(&g_dyn))
 #endif
 
 void h_acc(void)
@@ -342,15 +346,15 @@ void h_acc(void)
     g_dyn.data = malloc((size_t)in_cap * EL_SZ);
     __CPROVER_assume(g_dyn.data != NULL);
 #endif
-    g_argv[1].type = VAL_INT; g_argv[1].as.int_val = in_idx;
+    SET_CONTAINER_ARG();
+    g_argv[1] = create_int(in_idx);
 #if VERIF_ACC == ACC_SET
-    g_argv[2].type = EL_VT;
 #if VERIF_ELEM == EL_INT
-    g_argv[2].as.int_val = nondet_i64();
+    g_argv[2] = create_int(nondet_i64());
 #elif VERIF_ELEM == EL_FLOAT
-    g_argv[2].as.float_val = nondet_double();
+    g_argv[2] = create_float(nondet_double());
 #else
-    g_argv[2].as.bool_val = nondet_bool() ? 1 : 0;
+    g_argv[2] = create_bool(nondet_bool() ? 1 : 0);
 #endif
 #endif
 #ifdef VERIF_ONLY_OUT
@@ -431,16 +435,29 @@ static uint64_t dbits(double d) { return *(uint64_t *)&d; }
 void h_fop(void)
 {
     in_fa = nondet_double(); in_fb = nondet_double(); in_a = nondet_i64(); in_b = nondet_i64();
+    Environment *env = (Environment *)nondet_ptr();
+    /* The spec-side operand values are obtained through the SAME path as the interpreter's (literal leaf -> eval_expression ->
+       create_float / create_int -> Value), so that `x + y` below and `left.as.float_val + right.as.float_val` in eval.c are ONE
+       term for the solver (two separately encoded float adders/multipliers/dividers do not close: ADD 185 s, MUL / DIV > 300 s);
+       the first assertions tie them to the inputs bit for bit. */
 #if VERIF_MIX == MIX_FF
     mk_float_leaf(&g_leaf0, in_fa); mk_float_leaf(&g_leaf1, in_fb);
-    const double x = in_fa, y = in_fb;
+    Value vx = eval_expression(&g_leaf0, env), vy = eval_expression(&g_leaf1, env);
+    __CPROVER_assert(EV_IS_FLOAT(vx) && EV_IS_FLOAT(vy) && dbits(vx.as.float_val) == dbits(in_fa) && dbits(vy.as.float_val) == dbits(in_fb),
+                     "C03.float a float literal evaluates to its own bit pattern");
+    const double x = vx.as.float_val, y = vy.as.float_val;
 #elif VERIF_MIX == MIX_IF
     mk_int_leaf(&g_leaf0, in_a); mk_float_leaf(&g_leaf1, in_fb);
-    const double x = (double)in_a, y = in_fb;          /* C's usual arithmetic conversion of the int64_t operand */
+    Value vx = eval_expression(&g_leaf0, env), vy = eval_expression(&g_leaf1, env);
+    __CPROVER_assert(EV_IS_INT(vx) && EV_IS_FLOAT(vy) && vx.as.int_val == in_a && dbits(vy.as.float_val) == dbits(in_fb), "C03.float literals evaluate to themselves");
+    const double x = (double)vx.as.int_val, y = vy.as.float_val;          /* C's usual arithmetic conversion of the int64_t operand */
 #else
     mk_float_leaf(&g_leaf0, in_fa); mk_int_leaf(&g_leaf1, in_b);
-    const double x = in_fa, y = (double)in_b;
+    Value vx = eval_expression(&g_leaf0, env), vy = eval_expression(&g_leaf1, env);
+    __CPROVER_assert(EV_IS_FLOAT(vx) && EV_IS_INT(vy) && dbits(vx.as.float_val) == dbits(in_fa) && vy.as.int_val == in_b, "C03.float literals evaluate to themselves");
+    const double x = vx.as.float_val, y = (double)vy.as.int_val;
 #endif
+    __verif_ev.calls0 = 0; __verif_ev.calls1 = 0; __verif_ev.calls_other = 0; __verif_ev.seq = 0; __verif_ev.seq0 = 0; __verif_ev.seq1 = 0;
 #if VERIF_EOP == EOP_DIV && VERIF_DOM == DOM_DEFINED
     __CPROVER_assume(y != 0.0);                        /* every divisor except +0.0 / -0.0 (NaN and inf included) */
 #elif VERIF_EOP == EOP_DIV && VERIF_DOM == DOM_ZERO
@@ -448,7 +465,6 @@ void h_fop(void)
 #endif
     g_opnode.line = nondet_int(); g_opnode.column = nondet_int();
     __verif_ev.n0 = &g_leaf0; __verif_ev.n1 = &g_leaf1;
-    Environment *env = (Environment *)nondet_ptr();
     Value r = eval_expression(&g_opnode, env);
     __CPROVER_assert(!__verif_ev.exited && !__verif_ev.aborted, "C03.float unreachable: path ends do not return");
 #if VERIF_EOP == EOP_ADD
@@ -479,11 +495,17 @@ void h_fop(void)
     __CPROVER_assert(__verif_ev.calls1 == 1 && __verif_ev.seq0 < __verif_ev.seq1, "C03.float operand 1 is evaluated exactly once, after operand 0");
 #endif
 #if !(VERIF_EOP == EOP_DIV && VERIF_DOM == DOM_ZERO)
+#if VERIF_MIX == MIX_FF
     VERIF_COVER(x != x); VERIF_COVER(y != y);                 /* NaN operands */
     VERIF_COVER(x == 0.0 && dbits(x) != 0);                   /* -0.0 */
     VERIF_COVER(x > 1.0e308 && x == x + x);                   /* +inf */
-    VERIF_COVER(x == y); VERIF_COVER(x < y);
     VERIF_COVER(x - y != 0.0 && x - y < 1e-9 && y - x < 1e-9);   /* distinct but closer than any tolerance */
+#elif VERIF_MIX == MIX_IF
+    VERIF_COVER(y != y); VERIF_COVER(in_a == INT64_MIN); VERIF_COVER(in_a > ((int64_t)1 << 53) && (in_a & 1));   /* int not exactly representable */
+#else
+    VERIF_COVER(x != x); VERIF_COVER(in_b == INT64_MAX); VERIF_COVER(in_b > ((int64_t)1 << 53) && (in_b & 1));
+#endif
+    VERIF_COVER(x == y); VERIF_COVER(x < y);
 #else
     VERIF_COVER(x > 0.0); VERIF_COVER(x == 0.0); VERIF_COVER(dbits(y) != 0);
 #endif
@@ -514,7 +536,8 @@ void h_slice(void)
     g_dyn.data = malloc((size_t)in_cap * 8); __CPROVER_assume(g_dyn.data != NULL);
 #define SRC_AT(k) (((int64_t *)g_dyn.data)[k])
 #endif
-    g_argv[1] = create_int(in_start);          /* the interpreter's own constructor (src/env.c): whole-struct copies, no union member writes */
+    SET_CONTAINER_ARG();
+    g_argv[1] = create_int(in_start);
     g_argv[2] = create_int(in_length);
     const int64_t s = spec_slice_start(in_start, in_len), n = spec_slice_count(in_start, in_length, in_len);
     {   /* case split of the (start, length) plane */
@@ -551,21 +574,3 @@ void h_slice(void)
     VERIF_COVER(in_len > 1 && s == 1); VERIF_COVER(s == in_len && in_len == VERIF_SLICE_CAP);
 #endif
 }
-#ifdef VERIF_PROBE
-void h_probe(void)
-{
-    in_len = nondet_i64(); __CPROVER_assume(0 <= in_len && in_len <= 5);
-    g_dyn.length = in_len; g_dyn.capacity = 5; g_dyn.elem_type = ELEM_INT; g_dyn.elem_size = 8;
-    g_dyn.data = malloc(40);
-    DynArray *arr = g_argv[0].as.dyn_array_val;
-    if (arr != &g_dyn) __CPROVER_assert(0, "PROBE pointer not constant");
-    ElementType t = dyn_array_get_elem_type(arr);
-    if (t != ELEM_INT) __CPROVER_assert(0, "PROBE t not constant");
-    int64_t len = dyn_array_length(arr);
-    DynArray *out = dyn_array_new(t);
-    if (out->elem_type != ELEM_INT) __CPROVER_assert(0, "PROBE out type not constant");
-    ElementType t2 = dyn_array_get_elem_type(arr);
-    if (t2 != ELEM_INT) __CPROVER_assert(0, "PROBE t2 not constant after dyn_array_new");
-    (void)len;
-}
-#endif
